@@ -332,10 +332,13 @@ class Check:
         self.notes = []
         self.kf = load_known(pid)
         self.replay = replay
+        import threading
+        self.lock = threading.RLock()
 
     # coverage helpers
     def add(self, key, n=1):
-        self.cov[key] = self.cov.get(key, 0) + n
+        with self.lock:
+            self.cov[key] = self.cov.get(key, 0) + n
 
     def sample(self, s, cap=6):
         if len(self.cov["samples"]) < cap:
@@ -359,6 +362,10 @@ class Check:
         key: structural signature. If it matches an open known finding it is reported as
         KNOWN-FINDING (once), otherwise it is a violation with a replay file.
         """
+        with self.lock:
+            return self._report(key, what, record)
+
+    def _report(self, key, what, record):
         for ent in self.kf:
             if ent.get("status") == "open" and re.fullmatch(ent["key"], key):
                 if ent["key"] not in self.known_hits:
@@ -417,6 +424,13 @@ def sha(b):
     if isinstance(b, str):
         b = b.encode()
     return hashlib.sha256(b).hexdigest()[:16]
+
+
+def parallel(fn, items, workers=None):
+    """Run fn over items in threads (the work is in child processes); re-raises errors."""
+    from concurrent.futures import ThreadPoolExecutor
+    with ThreadPoolExecutor(max_workers=workers or NCPU) as ex:
+        return list(ex.map(fn, items))
 
 
 def chunks(lst, n):
